@@ -14,7 +14,10 @@ from .common import real_fixed_value, try_abs, safe_repr, TYPES_ALL, tla_set
 def run_case(chain_prefix, call, t):
     """replay on the real DSL; returns the event fields"""
     import d42
-    recv = am.g_chain(t, chain_prefix)
+    try:
+        recv = am.g_chain(t, chain_prefix)
+    except Exception:           # the real DSL refuses a prefix the model accepts: that refusal is
+        return None             # itself recorded as its own transition; nothing to replay here
     before_repr = safe_repr(recv)
     rep_r, recv_abs = try_abs(am.a_schema, recv)
     exc = ""
@@ -69,6 +72,10 @@ def main(chk):
         chain = st["chain"]
         t = st["prev"]["t"]
         ev = run_case(chain[:-1], last["c"], t)
+        if ev is None:
+            chk.count("receiver_not_buildable")
+            chk.drift += 1
+            continue
         n += 1
         recv_real = ev.pop("recv_real")
         if recv_real != [st["prev"]]:
